@@ -13,6 +13,8 @@ RULE_VERTEX = (
     "{0.5,0.999,1.001,2,0.1,10,0.9,1.1} in every DistanceUnit (and without unit), tolerance 0 / negative / the exact "
     "boundary value, high latitudes (squared degrees and great circle disagree), coordinates outside the haversine "
     "range, missing / ill-typed coordinates, non-object queries, stale match keys and up to 4 foreign fields; "
+    "one case in three is a SEQUENCE of 2-6 queries processed by ONE plugin instance (same coordinate repeated with / "
+    "without destination, interleaved with other coordinates, failures in between), every query judged history-free; "
     "deterministic boundary families first. Compared: outcome + error class + the whole query after processing "
     "(matched ids; on tie cases the matched squared distance instead of the id). "
     "non-trivial = Ok with >= 2 vertices, or Err InputPluginFailed with >= 1 vertex; distinct by full case")
@@ -25,7 +27,9 @@ RULE_EDGE = (
     "unparseable values) excluding the nearest 0..5 edges, vehicle_parameters making the nearest 1..3 edges "
     "inadmissible (verdict per edge from the real VehicleRestriction::valid), tolerance around the distance of the "
     "nearest ADMISSIBLE edge in every unit, boundary values, high-latitude cases where the nearer-by-degrees excluded "
-    "edge is beyond the tolerance and the admissible one within. Compared as for vertices. "
+    "edge is beyond the tolerance and the admissible one within. Two cases in five are SEQUENCES of 2-6 queries on ONE plugin instance: the bit-identical coordinate "
+    "repeated with different vehicle parameters / road classes / with and without destination, interleaved with other "
+    "coordinates and failing queries, each judged history-free by model and specification. Compared as for vertices. "
     "non-trivial = Ok with >= 2 edges, or Err InputPluginFailed with >= 1 edge; distinct by full case")
 
 def classify(case, i, m, s):
